@@ -75,7 +75,7 @@ func genFaceHistory(r *gen.RNG, i int) Witness {
 		case k < 12 && len(fi.axes) > 0:
 			w.Ops = append(w.Ops, Op{K: "setvar", Vars: genVars(r, fi)})
 		case k < 22 && len(fi.axes) > 0:
-			w.Ops = append(w.Ops, Op{K: "setcoords", Coords: genCoords(r, fi)})
+			w.Ops = append(w.Ops, Op{K: "setcoords", Coords: genCoords(r, fi), InPlace: r.Bool()})
 		case k < 32:
 			w.Ops = append(w.Ops, Op{K: "setppem", Ppem: genPpem(r)})
 		default:
@@ -160,7 +160,7 @@ func judgeFace(w Witness) (vs []violation, st *histStats) {
 			lastSetter = "SetVariations"
 			st.c("op=SetVariations")
 		case "setcoords":
-			f.setCoords(op.Coords)
+			f.setCoords(op.Coords, op.InPlace)
 			setters++
 			lastSetter = "SetCoords"
 			st.c("op=SetCoords")
